@@ -62,14 +62,24 @@ def main():
     ok = meta["with_change"]["existing_failed"] == 0 and meta["with_change"]["existing_passed"] >= 51 and any(v[1] > 0 for v in demo_res.values()) and all(v[1] == 0 for v in meta["without_change"]["demo"].values()) and bool(meta["without_change"]["demo"])
     meta["confirmed"] = ok
     # 2. run the checks on /repo with the patch applied
-    rc, o = sh("git -C /repo status --porcelain")
-    if o.strip():
-        print("refusing: /repo is dirty")
-        return 2
-    rc, o = sh("git -C /repo apply %s/patch.diff" % wt)
-    if rc != 0:
-        print("patch does not apply to /repo:", o)
-        return 2
+    scratch = None
+    if os.environ.get("SEED_EVAL_SCRATCH"):
+        # leave /repo alone (something else may be reading it): run the checks on a patched copy
+        scratch = os.path.join(os.environ.get("PV_SCRATCH", "/var/tmp"), "seed-eval-%s-%d" % (name, os.getpid()))
+        shutil.rmtree(scratch, ignore_errors=True)
+        rc, o = sh("rsync -a --exclude target --exclude .git /repo/ %s/ && cd %s && patch -p1 -s -i %s/patch.diff" % (scratch, scratch, wt))
+        if rc != 0:
+            print("patch does not apply to a copy of /repo:", o)
+            return 2
+    else:
+        rc, o = sh("git -C /repo status --porcelain")
+        if o.strip():
+            print("refusing: /repo is dirty")
+            return 2
+        rc, o = sh("git -C /repo apply %s/patch.diff" % wt)
+        if rc != 0:
+            print("patch does not apply to /repo:", o)
+            return 2
     fired = {}
     killed = {}
     try:
@@ -77,14 +87,17 @@ def main():
         for p in props:
             if not os.path.exists(os.path.join(VERIF, "pv", "rules", p + ".py")):
                 continue
-            rc, o = sh("./check %s --no-evidence" % p, cwd=VERIF, env=dict(os.environ, PV_SELFTEST="1"))
+            rc, o = sh("./check %s --no-evidence%s" % (p, (" --repo " + scratch) if scratch else ""), cwd=VERIF, env=dict(os.environ, PV_SELFTEST="1"))
             v = [l for l in o.splitlines() if l.startswith("VIOLATION")]
             if rc not in (0, 1) or (rc == 1 and not v):
                 killed[p] = "exit %d, no VIOLATION line: %s" % (rc, o[-200:])
             elif v:
                 fired[p] = [re.sub(r"replay=\S+ ", "", l)[:260] for l in v[:4]]
     finally:
-        sh("git -C /repo checkout -- .")
+        if scratch:
+            shutil.rmtree(scratch, ignore_errors=True)
+        else:
+            sh("git -C /repo checkout -- .")
     meta["checks_fired"] = fired
     if killed:
         meta["checks_killed"] = killed
